@@ -11,7 +11,7 @@ import (
 	"github.com/rkosegi/yaml-toolkit/patch"
 )
 
-var c10Alphabet = []rune{'/', '~', '0', '1', 'a', 'é', '世'}
+var c10Alphabet = []rune{'/', '~', '0', '1', 'a', 'é', '世', ' ', '\n', '\u3000'} // white space is a character like any other
 
 func c10Token(r *rand.Rand) string {
 	n := r.Intn(4)
@@ -356,6 +356,14 @@ func init() {
 				c10Print([]string{}),
 				c10Parse("/"),
 				c10Parse("~"),
+				c10Parse(" /a"),
+				c10Parse("\n/a/b"),
+				c10Parse(" "),
+				c10Parse("/a/b "),
+				c10Print([]string{"a", "b "}),
+				c10Print([]string{" ", "\u3000"}),
+				c10Parse("/a~1b/c~0d"),
+				c10Parse("/~0/~0"),
 			}
 		},
 		Gen: func(r *rand.Rand, tier string, idx int) Case {
